@@ -3,7 +3,8 @@
 TLC enumerates index expressions with their NumPy denotation (NdArray.BasicIndex / Take / MaskAxis / VIndex) or the verdict
 "NumPy raises": every basic index of the 1-D sources (start, stop in None + [-n-2, n+2], step in None, +-1, +-2, +-3; every
 integer in [-n-1, n]; None inserted), lean index tuples in 2-D / 3-D, integer lists with negatives and repeats, boolean masks along
-an axis (all 2^n masks up to n = 4; NumPy and dask masks), dask integer arrays, pointwise .vindex, Ellipsis, and a second index
+an axis (all 2^n masks up to n = 4; NumPy and dask masks), dask integer arrays, pointwise .vindex, Ellipsis, every placement of two or three
+new axes (None) among slices and integers of 1-D to 3-D sources (IndexNone), and a second index
 applied to the result of a first operation (incl. results with unknown chunk sizes).  Every behaviour is replayed under the chunk
 grids of its source: a valid index must compute the denotation (or be declined with NotImplementedError), an index NumPy rejects
 must raise.  `.blocks` is enumerated separately by Gen_Blocks (the expectation depends on the chunk grid)."""
